@@ -396,25 +396,40 @@ def installed_case(ctx, case):
     k = rsa.key(case.get('bits', 1024))
     token = case.get('token', b'\x01\x02\x03\x04')
 
+    enc_resp_id = servers.packet_info(757, 'encryption_response')[0]
+    preface_n = case.get('preface', len(case['out']) % 3 if len(case['inp'])
+                         % 2 else 0)
+
     class Peer(servers.Script):
         secret = None
         plain_in = b''
+
+        def __init__(self):
+            servers.Script.__init__(self)
+            self.preface = []
 
         def on_bytes(self, data):
             if self.dec is not None:
                 self.plain_in += self.dec.decrypt(data)
                 return
             self.buf += data
-            try:
-                n, p = wire.read_varint(self.buf, 0)
-            except wire.WireError:
-                return
-            if p + n > len(self.buf):
-                return
-            body = bytes(self.buf[p:p + n])
-            rest = bytes(self.buf[p + n:])
-            del self.buf[:]
-            pid, q = wire.read_varint(body, 0)
+            while True:
+                try:
+                    n, p = wire.read_varint(self.buf, 0)
+                except wire.WireError:
+                    return
+                if p + n > len(self.buf):
+                    return
+                body = bytes(self.buf[p:p + n])
+                rest = bytes(self.buf[p + n:])
+                del self.buf[:]
+                pid, q = wire.read_varint(body, 0)
+                if pid == enc_resp_id:
+                    break
+                # anything the client sends ahead of its reply is still
+                # cleartext: the switch comes after the reply, not before
+                self.preface.append((pid, body[q:]))
+                self.buf += rest
             f = servers.decode(757, 'encryption_response', body[q:])
             self.secret = rsa.decrypt_pkcs1_v15(k, f['shared_secret'])
             self.token_back = rsa.decrypt_pkcs1_v15(k, f['verify_token'])
@@ -435,6 +450,20 @@ def installed_case(ctx, case):
                                 allowed_versions={757})
             conn._connect()
             conn.reactor = C.LoginReactor(conn)
+            if preface_n:
+                # an early outgoing listener on the reply that first sends
+                # packets of its own (forced, so they precede the reply)
+                from minecraft.networking.packets import serverbound as sb_
+                ctx.label('packets_forced_ahead_of_encryption_response')
+
+                def ahead(_p):
+                    for i_ in range(preface_n):
+                        pr = sb_.login.PluginResponsePacket()
+                        pr.message_id, pr.successful = 70 + i_, False
+                        conn.write_packet(pr, force=True)
+                conn.register_packet_listener(
+                    ahead, sb_.login.EncryptionResponsePacket,
+                    outgoing=True, early=True)
             req = clientbound.login.EncryptionRequestPacket()
             req.context = conn.context
             req.server_id, req.public_key, req.verify_token = \
@@ -442,6 +471,10 @@ def installed_case(ctx, case):
             conn.reactor.react(req)
             if peer.secret is None or peer.token_back != token:
                 ctx.fail('installed', 'E4-secret-not-recovered', case)
+                return
+            if len(peer.preface) != preface_n:
+                ctx.fail('installed', 'E4-cleartext-ahead-of-reply', case,
+                         len(peer.preface), preface_n)
                 return
             # outbound through the installed socket wrapper
             pos = 0
